@@ -553,6 +553,11 @@ int main(int argc, char **argv) {
                     Task tk{int(t), ks, 0, (thorough ? Dt : Dq) - 2, cfgs_q[c], thorough ? size_t(1500000) : size_t(400000)}; tk.prefix = pre; tasks.push_back(tk);
                 }
         }
+        // starts with a non-empty last level that still has room (base 4: the level below the buffer holds 6 or 12 of its 16 slots), so
+        // that the next flush merges INTO the last level with permanent deletion while the buffer holds keys it already owns
+        for (int pre : {6, 12}) {
+            Task tk{int(t), 4, 0, thorough ? 8 : 6, DynCfg{4, 1, 2}, thorough ? size_t(1500000) : size_t(400000)}; tk.prefix = pre; tasks.push_back(tk);
+        }
         if (thorough) for (auto &c : cfgs_t) add_cfg(c, int(t), Dt - 1, false, 0);
         // round-structured exploration: (cfg, key set with buffer_max_size+1 keys, rounds, actions per key)
         struct RoundSpec { DynCfg cfg; int ks, R, actions; };
@@ -582,7 +587,7 @@ int main(int argc, char **argv) {
     mc::Run::EvidenceExtra ev;
     ev.states_counter = "distinct_canonical_states"; ev.transitions_counter = "transitions_executed"; ev.nontrivial_counter = "states_with_data_below_the_buffer";
     ev.rule = "breadth-first search over all histories of insert_or_assign(k,v)/erase(k), k from a key set of 4-7 colliding keys (adjacent keys, gaps, the extremes of the key type), v from 2 values, on the real DynamicPGMIndex copied per transition; "
-              "initial states: empty, every bulk-load of 1..3 sorted pairs with repeated keys, bulk-loads of 9 and 12 pairs landing two levels below the buffer, and non-initial starts reached by a fixed prefix of 11/15/19 round-robin inserts (so that the next merges cascade through three and four levels), plus round-structured search (one action out of {a,b,tombstone} per key for buffer_max_size+1 keys per round, so that every round flushes the buffer once; 2-7 rounds) which reaches merges into an existing deepest level where tombstones are dropped, plus size sweeps (bulk-load of 0..70 distinct keys followed by 40 inserts of fresh distinct keys, three placements) which hit every exact fit of a flush into the free room of a level; configurations (base,buffer_level,index_level) with a 3-entry buffer and 4/8/16-entry levels so that depth-" + std::to_string(thorough ? Dt : Dq) +
+              "initial states: empty, every bulk-load of 1..3 sorted pairs with repeated keys, bulk-loads of 9 and 12 pairs landing two levels below the buffer, and non-initial starts reached by a fixed prefix of 11/15/19 (base 2) or 6/12 (base 4, leaving a non-empty last level with room) round-robin inserts (so that the next merges cascade through three and four levels), plus round-structured search (one action out of {a,b,tombstone} per key for buffer_max_size+1 keys per round, so that every round flushes the buffer once; 2-7 rounds) which reaches merges into an existing deepest level where tombstones are dropped, plus size sweeps (bulk-load of 0..70 distinct keys followed by 40 inserts of fresh distinct keys, three placements) which hit every exact fit of a flush into the free room of a level; configurations (base,buffer_level,index_level) with a 3-entry buffer and 4/8/16-entry levels so that depth-" + std::to_string(thorough ? Dt : Dq) +
               " histories cascade through three levels and small levels own a PGM-index; key/value/index types arithmetic, pointer and std::string values. A state is a distinct canonical form (used_levels + per-level list of key/value-or-tombstone); after every transition the property's oracle runs against std::map" +
               (prop == 5 ? " (find, count, lower_bound for every alphabet key and its neighbours)" : prop == 6 ? " (iteration from begin() and from every lower_bound to end(), range() for every lo<=hi of the query alphabet, size(), empty())" : " (sortedness, capacities, empty levels beyond used_levels, per-level index built over exactly the level's keys and answering the search contract, emptied levels' indexes reset)") +
               ". Non-trivial: the state holds data in a level below the buffer.";
